@@ -2,10 +2,14 @@
    Chunk size: refused exactly for 0 and above 2^31-1 by serializer and deserializer, propagated by the session constructor;
    payloads: refused exactly above 16,777,215 bytes; AMF0 strings / names: C04 (refused exactly above 65,535 bytes or empty name).
    The slicing loop of serialize terminates for every accepted chunk size (>= 1) - and provably never for 0, which is why 0 is
-   refused - and every reachable serializer state has a chunk size >= 1.  "Accepted values yield a working codec" is C01/C07.
+   refused - and every reachable serializer state has a chunk size >= 1.  "Accepted values yield a working codec" is C01/C07;
+   "accepted configurations yield a working session": C19_accepted_configs_connect (ConfigWorks.v) - for EVERY accepted pair of
+   configurations two freshly created sessions complete the connect exchange (the workflows after it: C02).
    Bounded memory of the output: a packet is at most 17 * payload + 16 bytes, a chunk-size announcement at most 84 (SerSizeProofs.v). *)
+From Coq Require Import String.
 From RML Require Import Model.Base Model.Chunk Model.ChunkSer Model.ChunkDe Model.SessionCommon Model.Server Model.Amf0 Spec.Amf0Wire
-  Proofs.ChunkSerProofs Proofs.ConfigProofs Proofs.Amf0Proofs Proofs.SerSizeProofs Proofs.Amf0Size.
+  Proofs.ChunkSerProofs Proofs.ConfigProofs Proofs.Amf0Proofs Proofs.SerSizeProofs Proofs.Amf0Size
+  Model.Utf8 Model.Client Proofs.InteropProofs Proofs.ProtocolProofs Proofs.ProtocolStart Proofs.ConfigWorks.
 Local Open Scope N_scope.
 
 Theorem C19_ser_chunk_size : forall st n ts, 1 <= s_max st ->
@@ -59,6 +63,37 @@ Proof. exact encode_value_size. Qed.
 Theorem C19_amf0_serialized_size : forall vs b, Amf0.serialize vs = Ok b -> lenN b = vssize vs.
 Proof. exact serialize_size_exact. Qed.
 
+(* every accepted pair of configurations: the fresh sessions connect.  cquiet = no Acknowledgement falls due while the client reads
+   the server's opening packets (k = how those packets are grouped into input calls); sconfig_ok / cconfig_ok say: chunk size in
+   1..2^31-1, u32 window and bandwidth, strings valid UTF-8 of at most 65535 (app name: 65000) bytes *)
+Theorem C19_accepted_configs_connect : forall cfg ccfg app clock k rclock sclock aclock cclock,
+  sconfig_ok cfg -> cconfig_ok ccfg app ->
+  clock < 4294967296 -> rclock < 4294967296 -> aclock < 4294967296 -> cclock < 4294967296 ->
+  exists s0 rs c0,
+    server_new cfg clock = (s0, ROk rs) /\ events rs = [] /\
+    cdeliver (client_new ccfg) (spackets rs) k = Some c0 /\ cl_state c0 = Disconnected /\
+    (cquiet (client_new ccfg) (spackets rs) k ->
+     exists b1 c1 s1 b2 s2 c2 rs2 pre w1 w2,
+       client_request_connection c0 app rclock = (c1, COk [CPacket b1 false]) /\
+       server_handle_input s0 b1 sclock = (s1, ROk [SEvent (EvConnectionRequested 0 (strip_slash app))]) /\
+       server_accept s1 0 aclock = (s2, ROk [SPacket b2 false]) /\
+       client_handle_input c1 b2 cclock = (c2, COk rs2) /\
+       rs2 = pre ++ [CPacket w1 false; CEvent CConnectionAccepted; CPacket w2 false] /\ cevents pre = [] /\
+       cl_state c2 = Connected /\ cl_app c2 = Some app /\
+       sv_connected s2 = true /\ sv_app s2 = Some (strip_slash app) /\
+       Link (sv_ser s2) (cl_de c2) /\ s_max (cl_ser c2) = cc_chunk ccfg).
+Proof. exact accepted_configs_connect. Qed.
+
+Example C19_accepted_configs_example :
+  let cfg := {| cfg_fms := str "FMS/3,0,1,123"; cfg_chunk := 1; cfg_bandwidth := 0; cfg_window := 4294967295; cfg_bwdone := true |} in
+  let ccfg := {| cc_flash := str "v"; cc_buffer := 1000; cc_window := 2500000; cc_chunk := 2147483647; cc_tcurl := Some (str "rtmp://h/live") |} in
+  sconfig_ok cfg /\ cconfig_ok ccfg (str "live") /\
+  match server_new cfg 0 with
+  | (_, ROk rs) => cquiet (client_new ccfg) (spackets rs) 7
+  | _ => False
+  end.
+Proof. exact accepted_configs_example. Qed.
+
 Print Assumptions C19_ser_chunk_size.
 Print Assumptions C19_de_chunk_size.
 Print Assumptions C19_payload.
@@ -71,3 +106,4 @@ Print Assumptions C19_serialize_output_bounded.
 Print Assumptions C19_set_chunk_size_output_bounded.
 Print Assumptions C19_amf0_encoded_size.
 Print Assumptions C19_amf0_serialized_size.
+Print Assumptions C19_accepted_configs_connect.
